@@ -71,6 +71,8 @@ pub fn enc_result(r: Result<Vec<SteelVal>, steel::SteelErr>, out: String) -> Val
     }
 }
 
+static mut HOST_ROOTS: Vec<Option<steel::RootedSteelVal>> = Vec::new();
+
 pub fn run_step(engine: &mut Engine, cap: &mut OutCapture, step: &Value) -> Value {
     let (op, code) = match step {
         Value::String(s) => ("run", s.clone()),
@@ -109,6 +111,43 @@ pub fn run_step(engine: &mut Engine, cap: &mut OutCapture, step: &Value) -> Valu
         "symstats" => {
             let t = steel::verif::symbol_map_stats(engine);
             json!({"s":"ok","v":[t.0, t.1, t.2, t.3, t.4],"out":""})
+        }
+        // C19 (d): the host roots the value of a global in a numbered slot / releases that root
+        "root" => {
+            let name = step.get("name").and_then(|p| p.as_str()).unwrap_or("");
+            let slot = step.get("slot").and_then(|p| p.as_u64()).unwrap_or(0) as usize;
+            match engine.extract_value(name) {
+                Ok(v) => {
+                    let r = v.as_rooted();
+                    drop(v);
+                    unsafe {
+                        let roots = &mut *std::ptr::addr_of_mut!(HOST_ROOTS);
+                        while roots.len() <= slot {
+                            roots.push(None);
+                        }
+                        roots[slot] = Some(r);
+                    }
+                    json!({"s":"ok","v":["rooted"],"out":""})
+                }
+                Err(e) => json!({"s":"err","k":"root","m":format!("{:?}", e),"out":""}),
+            }
+        }
+        "unroot" => {
+            let slot = step.get("slot").and_then(|p| p.as_u64()).unwrap_or(0) as usize;
+            let had = unsafe {
+                let roots = &mut *std::ptr::addr_of_mut!(HOST_ROOTS);
+                if slot < roots.len() { roots[slot].take().is_some() } else { false }
+            };
+            json!({"s":"ok","v":[had],"out":""})
+        }
+        "rootval" => {
+            // what the host reads through a root it still holds
+            let slot = step.get("slot").and_then(|p| p.as_u64()).unwrap_or(0) as usize;
+            let v = unsafe {
+                let roots = &*std::ptr::addr_of!(HOST_ROOTS);
+                roots.get(slot).and_then(|x| x.as_ref()).map(|r| steel::verif::encode(r.value()))
+            };
+            json!({"s":"ok","v":[v.unwrap_or_else(|| "none".to_string())],"out":""})
         }
         "natives" => json!({"s":"ok","v":steel::verif::native_function_globals(engine),"out":""}),
         "rss" => json!({"s":"ok","v":[rss_hwm_kb()],"out":""}),
